@@ -15,8 +15,41 @@ from . import witness as witness_mod
 PROPS = [f"C{i:02d}" for i in range(1, 20)]
 
 
+SHARED_RULES = {"saver_guards", "single_producer", "failure_recorded", "plugin_capacity", "destructive_calls", "decompressors_drain", "planning_roles"}
+
+
+def _guard(fn):
+    """Rule functions run independently: an anchor that vanished for one rule (AnalysisError) is
+    recorded and the other rules still run, so that a violation elsewhere is still reported."""
+    import functools
+    import re
+
+    if getattr(fn, "_guarded", False):
+        return fn
+
+    @functools.wraps(fn)
+    def wrapper(chk, *a, **k):
+        try:
+            return fn(chk, *a, **k)
+        except AnalysisError as e:
+            if hasattr(chk, "defer"):
+                chk.defer(str(e))
+                return None
+            raise
+
+    wrapper._guarded = True
+    return wrapper
+
+
 def load_prop(pid):
-    return importlib.import_module(f"sa.props.{pid.lower()}")
+    import re
+    import types
+
+    mod = importlib.import_module(f"sa.props.{pid.lower()}")
+    for name, val in list(vars(mod).items()):
+        if isinstance(val, types.FunctionType) and val.__module__ == mod.__name__ and (re.match(r"r\d+_", name) or name in SHARED_RULES):
+            setattr(mod, name, _guard(val))
+    return mod
 
 
 def run_rules(pid, repo, tier, quiet=True):
@@ -48,6 +81,7 @@ def run_one(pid, tier, root, replay=None, seed=0):
         chk.note("negative_witnesses", neg)
     chk.note("witnesses", wres)
 
+    deferred = list(getattr(chk, "deferred", []))
     new, known = chk.split_findings()
     cov = chk.coverage(mod.EXPLANATION, mod.RULE_TEXT)
     ev = {
@@ -105,6 +139,10 @@ def run_one(pid, tier, root, replay=None, seed=0):
         print(f"[{pid}] negative witnesses (behaviour-preserving rewrites of the whole package): "
               + ", ".join(f"{k}: {'silent' if not v else 'ALARM'}" for k, v in neg.items()))
     bad_neg = [f"{k}: {x}" for k, v in neg.items() for x in v]
+    for d in deferred:
+        print(f"ANALYSIS-ERROR: property={pid} {d}")
+    if deferred and rc == 0:
+        return 2
     if wres["undetected"] or bad_neg:
         for w in wres["undetected"]:
             print(f"ANALYSIS-ERROR: witness not detected (rule vacuous?): {w}")
